@@ -75,46 +75,11 @@ theorem C01_mulScalar (a s : BitVec 64) :
 
 /-- inc -/
 theorem C01_inc (a : BitVec 64) : rd (inc a) = (a.toNat + 1) % P := by
-  rw [rd_eq]
-  unfold inc
-  have ha := a.isLt
-  by_cases h1 : a < 18446744069414584319#64
-  · simp only [h1, decide_true, if_true]
-    have h1' : a.toNat < 18446744069414584319 := h1
-    rw [BitVec.toNat_add]
-    simp only [BitVec.toNat_ofNat, Nat.reducePow, Nat.reduceMod]
-    have : (a.toNat + 1) % 18446744073709551616 = a.toNat + 1 := by omega
-    rw [this]
-  · simp only [h1, decide_false, Bool.false_eq_true, if_false]
-    by_cases h2 : a = 18446744069414584320#64
-    · have h2' : (a == 18446744069414584320#64) = true := by simpa using h2
-      simp only [h2', if_true]
-      have h3 : a.toNat = 18446744069414584320 := by rw [h2]; rfl
-      rw [h3]
-      simp only [BitVec.toNat_ofNat, Nat.reducePow, Nat.reduceMod, P, Nat.reduceAdd, Nat.zero_mod]
-    · have h2' : (a == 18446744069414584320#64) = false := by simpa using h2
-      simp only [h2', Bool.false_eq_true, if_false, one__r, c_ONE]
-      have h4 := (C01_add a 1#64).2
-      rw [rd_eq] at h4
-      rw [h4]
-      simp only [BitVec.toNat_ofNat, Nat.reducePow, Nat.reduceMod]
+  rw [rd_eq]; exact inc_mod a
 
 /-- dec -/
 theorem C01_dec (a : BitVec 64) : rd (dec a) = (a.toNat % P + (P - 1)) % P := by
-  rw [rd_eq]
-  unfold dec
-  have ha := a.isLt
-  by_cases h1 : a > 0#64
-  · simp only [h1, decide_true, if_true]
-    have h1' : 0 < a.toNat := h1
-    rw [BitVec.toNat_sub]
-    simp only [BitVec.toNat_ofNat, Nat.reducePow, Nat.reduceMod]
-    unfold P; omega
-  · simp only [h1, decide_false, Bool.false_eq_true, if_false]
-    have h1' : ¬ (0 < a.toNat) := h1
-    have h3 : a.toNat = 0 := by omega
-    rw [h3]
-    simp only [BitVec.toNat_ofNat, Nat.reducePow, Nat.reduceMod, P, Nat.zero_mod, Nat.zero_add, Nat.reduceSub]
+  rw [rd_eq]; exact dec_mod a
 
 /-- results depend only on the residue classes of the operands -/
 theorem C01_residue_independent (a a' b b' : BitVec 64)
